@@ -108,6 +108,9 @@ type vPipeCase struct {
 	Streams  []vStream   `json:"streams"`
 	Pulses   []vPulse    `json:"pulses,omitempty"`
 	Restored []vRestored `json:"restored,omitempty"` // trigger settings found in the saved configuration at start
+	// SlowPub: the publisher thread is slow - the publish channels hold one batch only and their consumer dawdles; processing must wait
+	// for it, never drop a batch
+	SlowPub  bool        `json:"slow_publisher,omitempty"`
 	Lancero  bool        `json:"lancero,omitempty"`  // use a LanceroSource value (for error/feedback coupling); channels come in err/fb pairs
 	Hist     []vHistOp   `json:"hist,omitempty"`
 }
@@ -290,6 +293,44 @@ func (c *vPipeCase) valid() bool {
 // vRunPipe feeds the case to a real AnySource.  observe (optional) is called after every block.
 func vRunPipe(c *vPipeCase, observe func(tr *vTrace, k int, recs []*DataRecord) *vVerdict) (*vTrace, *vVerdict) {
 	vDrainRecords()
+	drain := vDrainRecords
+	if c.SlowPub {
+		oldR, oldS := PubRecordsChan, PubSummariesChan
+		PubRecordsChan, PubSummariesChan = make(chan []*DataRecord, 1), make(chan []*DataRecord, 1)
+		var got []*DataRecord
+		stopc, mark, gone := make(chan struct{}), make(chan struct{}), make(chan struct{})
+		rc, sc := PubRecordsChan, PubSummariesChan // (this consumer must never look at the globals again: the next case replaces them)
+		go func() {
+			defer close(gone)
+			for {
+				select {
+				case r := <-rc:
+					if r == nil { // the harness' marker: everything sent before it has been taken
+						mark <- struct{}{}
+						continue
+					}
+					time.Sleep(150 * time.Microsecond)
+					got = append(got, r...)
+				case <-sc:
+					time.Sleep(50 * time.Microsecond)
+				case <-stopc:
+					return
+				}
+			}
+		}()
+		defer func() {
+			close(stopc)
+			<-gone
+			PubRecordsChan, PubSummariesChan = oldR, oldS
+		}()
+		drain = func() []*DataRecord {
+			rc <- nil
+			<-mark
+			out := got
+			got = nil
+			return out
+		}
+	}
 	tr := &vTrace{Truth: c.truth(), T0: vPipeT0, Period: time.Duration(c.PeriodNs)}
 	ds := &AnySource{nchan: c.Nchan, name: "verif"}
 	var ls *LanceroSource
@@ -472,7 +513,7 @@ func vRunPipe(c *vPipeCase, observe func(tr *vTrace, k int, recs []*DataRecord) 
 			_ = ch
 		}
 		tr.Blocks = append(tr.Blocks, bi)
-		recs := vDrainRecords()
+		recs := drain()
 		for _, r := range recs {
 			tr.Emits = append(tr.Emits, vEmit{Block: k, Rec: r, Snap: append([]RawType(nil), r.data...)})
 		}
